@@ -1,6 +1,7 @@
 """C15 request body size limits (engine M). See DESIGN.md 4/C15."""
 from mcommon import *
 from handler_model import *
+from handler_model import make_auto_inline
 from p_c01 import violated
 
 
@@ -67,9 +68,13 @@ def check(rep, tier, seed):
     if len(cands) != 1:
         raise Inconclusive("expected one closure constructing RequestBodyLimitLayer, found %d" % len(cands))
     svc = cands[0]
+    import callgraph
+    cg = callgraph.CallGraph(ctx.idx); cg.set_src(ctx.src)
     eng = ctx.engine()
+    # helpers of hyper_client that decide the exemption are inlined, whatever they are called
+    eng.auto_inline = make_auto_inline(cg, re.compile(r"(handle_new_http_request$|SharedState::|::log$|Logger::|logger::|::clone$|::fmt$|::to_string$|::drop$)"))
     paths = eng.explore(svc)
-    rep.functions_encoded.append(svc)
+    rep.functions_encoded += [svc] + sorted(eng.inlined)
     consts = {}
     for nm in ("REQUEST_BODY_LOW_LIMIT_SIZE", "REQUEST_BODY_LARGE_LIMIT_SIZE"):
         e2 = ctx.engine(); e2._reset([])
@@ -79,18 +84,17 @@ def check(rep, tier, seed):
                   str(consts), 0, "mirsym", key="C15.const-low", reproduced=None))
     rep.add(Query("REQUEST_BODY_LARGE_LIMIT_SIZE evaluates to 104857600 (100 MiB)", "holds" if consts["REQUEST_BODY_LARGE_LIMIT_SIZE"] == 104857600 else "violated",
                   str(consts), 0, "mirsym", key="C15.const-large", reproduced=None))
+    n_large = n_low = 0
     for i, r in enumerate(paths):
-        ss = [e for e in r.events if e.kind == "call" and e.callee.endswith("should_skip_sig")]
         news = [e for e in r.events if e.kind == "call" and e.callee.endswith("RequestBodyLimitLayer::new")]
         calls = [e for e in r.events if e.kind == "call" and re.search(r"tower::Service<.*>>::call$", e.callee)]
-        if len(ss) != 1 or not calls:
-            rep.add(Query("service closure path %d: structure" % i, "violated", "should_skip_sig calls=%d, service calls=%d" % (len(ss), len(calls)), 0, "mirsym", key="C15.svc-structure", reproduced=None))
+        if not calls or r.status != "return":
+            rep.add(Query("service closure path %d: the request is handed to a tower service" % i, "inconclusive", "status %s, service calls=%d" % (r.status, len(calls)), 0, "mirsym", key="C15.svc-structure"))
             continue
-        # which limit layer wraps the service that is called?
+
         def limit_of(layer_new_ev):
             a = layer_new_ev.rargs[0]
             return z3.simplify(a.e).as_long() if isinstance(a, Scalar) and z3.is_bv_value(z3.simplify(a.e)) else None
-        # follow: call(service) <- service_fn(builder, ..) <- builder = clone of ServiceBuilder::layer(new(), layer) <- layer = RequestBodyLimitLayer::new(c)
         svcv = origin(calls[0].rargs[0])
         used = None
         sf = [e for e in r.events if e.ret is svcv and e.callee.endswith("service_fn")]
@@ -102,16 +106,46 @@ def check(rep, tier, seed):
                 nw = [e for e in news if e.ret is l]
                 if nw:
                     used = limit_of(nw[0])
-        skip = ss[0].ret.scalar("bool")
-        # the method/uri given to should_skip_sig are the request's own
+        if used is None:
+            rep.add(Query("service closure path %d: the limit layer wrapping the called service is identified" % i, "inconclusive", "could not follow call <- service_fn <- layer <- RequestBodyLimitLayer::new(const)", 0, "mirsym", key="C15.svc-structure"))
+            continue
+        # reference exemption predicate over this request's own method and url
         req = r.args[1] if len(r.args) > 1 else None
-        for name, cond, want in (("exempt upload => 100 MiB limit layer", skip, 104857600), ("any other request => 100 KiB limit layer", z3.Not(skip), 102400)):
+        meth = [e for e in r.events if e.kind == "call" and e.callee.endswith("Request::method") and req is not None and same_origin(e.rargs[0], req)]
+        uris = [e for e in r.events if e.kind == "call" and e.callee.endswith("Request::uri") and req is not None and same_origin(e.rargs[0], req)]
+        lows = [e for e in r.events if e.kind == "call" and e.callee.endswith("to_lowercase")]
+        L = None
+        for e in lows:
+            cur = e.rargs[0]
+            for _ in range(6):
+                cur = origin(cur)
+                if any(cur is u.ret or (isinstance(cur, Sym) and cur.tag[0] == "part" and cur.tag[2] == "*" and cur.tag[1] is u.ret) for u in uris):
+                    L = e.ret.string()
+                    break
+                if isinstance(cur, Sym) and cur.tag[0] == "ret":
+                    nxt = [x for x in r.events if x.ret is cur and x.rargs]
+                    if not nxt:
+                        break
+                    cur = nxt[0].rargs[0]
+                    continue
+                break
+        if L is None:
+            L = z3.String("lower_url_%d" % i)      # the code never lower-cases this request's url: any value
+        M = eng.opaque_id(meth[0].ret) if meth else z3.Int("method_%d" % i)
+        PUT, POST = eng.opaque_id(ConstV("Method::PUT")), eng.opaque_id(ConstV("Method::POST"))
+        ref = z3.Or(z3.And(M == PUT, L == z3.StringVal("/vmagentlog")), z3.And(M == POST, L == z3.StringVal("/machine/?comp=telemetrydata")))
+        for name, cond, want in (("exempt upload (PUT /vmagentlog, POST /machine/?comp=telemetrydata, any case) => 100 MiB limit layer", ref, 104857600),
+                                 ("any other method/url => 100 KiB limit layer", z3.Not(ref), 102400)):
             qn = "service closure path %d: %s" % (i, name)
-            bad = add_query(rep, qn, r.pc + [cond, z3.BoolVal(used != want)], key="C15.limit-selection:" + name)
+            bad = add_query(rep, qn, r.pc + [cond, z3.BoolVal(used != want)], key="C15.limit-selection:" + name.split(" =>")[0])
             if bad:
-                rep.add(Query(qn, "violated", "limit in force on this path: %s" % used, bad[1], "mirsym+z3", key="C15.limit-selection:" + name, model=bad[0], reproduced=None,
+                rep.add(Query(qn, "violated", "limit in force on this path: %s; model %s" % (used, bad[0]), bad[1], "mirsym+z3", key="C15.limit-selection:" + name.split(" =>")[0], model=bad[0], reproduced=None,
                               replay=save_replay("C15", "svc_path%d.json" % i, json.dumps({"limit": used, "model": bad[0]}, indent=1))))
-        handler_called = True
+        if used == 104857600:
+            n_large += 1
+        else:
+            n_low += 1
+    rep.add(Query("witness: the service closure has a 100 MiB path and a 100 KiB path", "witness-hit" if n_large and n_low else "witness-missed", "%d/%d" % (n_large, n_low), 0, "mirsym"))
     inner = [p for p in ctx.idx.files if p.startswith(svc + "::{closure")]
     ok_inner = False
     for p in inner:
